@@ -131,8 +131,10 @@ CHECKS = {
          "held by a cache before the invocation or delivered by it: a PTR named the service's type, the first SRV of the instance giving "
          "the reported hostname and port, the TXT records whose merge is the reported attributes (the set is one of the contents the "
          "cache passes through while the handler works record by record); by the cache invariant of C05/C06 held records are unexpired "
-         "with nonzero TTL. The second clause (removed no later than SRV expiry, no stale description while a valid PTR points at the "
-         "instance) is decided per run by mon_browser with a reference RFC 6762 cache (codes 60-64), including all intermediate states "
+         "with nonzero TTL; C15_added_implies_srv_held(_runs) - invariant of every world reached by any handler sequence / every script of "
+         "the model: an instance a browser has added always has an SRV record in that browser's cache, i.e. it is reported removed within "
+         "the handler in which its last SRV record leaves (expiry, goodbye; flush replacements keep an SRV). The staleness clause (no stale "
+         "description while a valid PTR points at the instance) is decided per run by mon_browser with a reference RFC 6762 cache (codes 60-64), including all intermediate states "
          "of multi-record messages and simultaneous expiries. One open known finding (shared cache replayed by every browser) is "
          "reported as KNOWN-FINDING.",
          "DESIGN.md section 4 (C15/C19)", "Rocq proof over all worlds and handler invocations (provenance of every report) + reference-cache acceptor on implementation traces + differential correspondence"),
